@@ -171,7 +171,15 @@ def nc_body(case, ctx, tmp):
             if old.values.dtype.kind == 'O':
                 continue
             newv = (old.values * 0 + np.array(rr.sample(range(40000, 60000), max(1, old.values.size)))[:old.values.size].reshape(old.values.shape)).astype(old.values.dtype)
-            sp = {"dims": list(old.dims), "labels": old.labels, "kinds": [fm.axes[d][1] for d in old.dims], "values": newv, "attrs": dict(attrs)}
+            nattrs = dict(attrs)
+            if rr.random() < 0.6:
+                # the rewritten variable comes with other metadata: changed entries are replaced, new ones added
+                for kk in list(nattrs)[:1]:
+                    if isinstance(nattrs[kk], str):
+                        nattrs[kk] = nattrs[kk] + '-v2'
+                nattrs['rewritten'] = 'r%d' % st["seed"]
+                ctx.outcomes['nc-rewrites-with-new-metadata'] += 1
+            sp = {"dims": list(old.dims), "labels": old.labels, "kinds": [fm.axes[d][1] for d in old.dims], "values": newv, "attrs": nattrs}
             arr = ncc.build_array(sp, fm.axes)
             ctx.outcomes['nc-append-steps'] += 1
             if st["via"] == 'open_nc':
